@@ -12,6 +12,23 @@ CHECKS = {
             "characters); holds for the executions produced, not a proof.",
             "Python re semantics; R1 reads the live spil.conf templates; strings with '?' only judged for not raising.",
             "runtime monitor on sid_factory + reference template matcher over generated strings"),
+    "C02": ("exploration", "3 C02",
+            "every typed Sid of a stratified generated population is rebuilt through uri, shuffled field dicts, query, eval(repr()) "
+            "and copy() and compared; canonical string against an independent renderer; equality law on all pairs of batches that "
+            "contain same-string Sids of different (forced) types. Held on the executions produced.",
+            "query round trip judged only for query-safe values; forced-type Sids not rebuilt from fields.",
+            "metamorphic runtime relations between executions of the real constructors + reference renderer"),
+    "C03": ("exploration", "3 C03",
+            "get_as / parent / '/' / len / keytype / basetype relations asserted on every key of generated typed Sids (string-built, "
+            "forced-type and query-built) and on untyped Sids; held on the executions produced.",
+            "relations are computed from the recorded fields and string of the real Sid; natural typing only for the '/' clause.",
+            "runtime invariant monitors over generated Sids"),
+    "C04": ("exploration", "3 C04",
+            "every query / get_with result (API boundary and every internal apply_query call, via a wrapper) is classified as applied or "
+            "refused and compared with the R3 overlay + R2 dict-typing oracle, with branch coverage of the decision table required; "
+            "held on the executions produced.",
+            "R2/R3 are re-implementations from the statement; ambiguous query forms are counted as unspecified, not judged.",
+            "runtime monitor on apply_query/get_with + reference overlay/typing model"),
 }
 
 NOT_YET = {}
